@@ -1,7 +1,45 @@
 (* C01 — per-object event processing is serial, ordered and lossless.
-   Only statements here; proofs in Proofs/QueueInv.v (LTS invariant) and Proofs/Queue.v (S-tie).
+   Only statements here; proofs in Proofs/QueueInv.v (LTS invariant, variant) and Proofs/Queue.v (S-tie).
    Every theorem quantifies over ALL label lists accepted by `run` (= every interleaving of arrivals,
-   processing durations, idle timeouts, limit saturation, cancellation), all worker limits, all uids. *)
+   processing durations, idle timeouts, limit saturation, cancellation), all worker limits, all uids.
+
+   CLAUSE AUDIT (statement + quantifier of properties.jsonl C01)
+   ---------------------------------------------------------------------------------------------------------
+   clause                                          | stated by
+   ------------------------------------------------+--------------------------------------------------------
+   events of one object processed one at a time    | FULL: C01_serial, C01_begin_after_end, C01_alternation
+   in the order the API delivered them             | FULL: C01_fifo_lossless, C01_processed_prefix (trace level)
+   while the watch is alive none is dropped        | FULL (safety + liveness): C01_fifo_lossless (nothing leaves
+                                                   |  processed ++ in-flight ++ backlog), C01_no_deadlock (an
+                                                   |  unprocessed event always has an enabled internal step),
+                                                   |  C01_progress_decreases + C01_eventually_processed (EVERY
+                                                   |  schedule of internal steps is finite, bounded by work_left,
+                                                   |  and ends with everything processed), C01_quiescent_complete.
+                                                   |  Outside the quantifier: a processor exception drops the
+                                                   |  backlog: C01_fifo_lossless_refuted / _partial (no finding:
+                                                   |  "unrecoverable error" path, the watcher is then stopped)
+   ... or processed twice                          | FULL: C01_not_twice
+   however arrivals interleave with slow           | FULL: quantification over all label lists (LEnd at any
+    processing, idle retirement, limit, shutdown   |  time, LTimeout at any time, any limit, LCancel at any pc)
+   an event arriving at the very instant an idle   | FULL: C01_retire_race, C01_retire_only_when_empty (not
+    worker retires is still processed              |  lost, worker stays) + C01_eventually_processed (processed)
+   different objects never wait for each other     | FULL: C01_limit, C01_no_cross_blocking, C01_start_enabled,
+    beyond the configured worker limit             |  C01_no_deadlock (hypothesis worker_limit <> 0: with 0 nothing
+                                                   |  ever starts — degenerate configuration, not alarmed).
+                                                   |  Composition with the index gate: C17 / finding F11.
+   shutdown (watcher cancellation)                 | C01_drain_partial (guard: not cancelled INSIDE
+                                                   |  scheduler.spawn() before the job is queued) +
+                                                   |  C01_drain_refuted (that case; a model over-approximation:
+                                                   |  the T-tie counts 0 suspensions there, see evidence
+                                                   |  histogram "insert->spawn"); after exit_timeout / close():
+                                                   |  loss is allowed by the property (watch not alive)
+   pressure flag (used by C07)                     | FULL: C01_pressure
+   BOOKMARK / LISTED items never reach a queue     | monitored only (explorer action B; monitor order/invented)
+   after scheduler.close()                         | not covered (frozen in the model; C20 owns termination)
+   atomicity assumptions (no await between X, Y)   | S-tie: C01_skeleton_* (regenerated from the source each run)
+   ---------------------------------------------------------------------------------------------------------
+   Model <-> code: T-tie (label traces + per-iteration snapshots + quiescence markers of the real coroutines
+   replayed by Model/Queue.v:accepts_with), see harness/kv/props/c01.py. *)
 From Coq Require Import List Arith Bool.
 From KV Require Import Gen.Awaits Model.Queue Model.QueueSk Proofs.Queue.
 Import ListNotations.
@@ -122,21 +160,77 @@ Theorem C01_start_enabled : forall s u,
 Proof. exact start_enabled. Qed.
 Print Assumptions C01_start_enabled.
 
-(* --- shutdown: if the depletion wait ended without hitting exit_timeout, everything queued was processed
-       (watcher cancelled at its `async for`, the only suspension point where it holds no event) --- *)
+(* --- shutdown: if the depletion wait ended without hitting exit_timeout, everything queued was processed,
+       wherever the watcher was cancelled except inside scheduler.spawn() before the job was queued --- *)
 Theorem C01_drain_partial : forall lim tr s u, run (init lim) tr = Some s ->
-  (ph s = PDepleted \/ ph s = PClosed) -> timedout s = false -> cancel_pc s = WIdle ->
+  (ph s = PDepleted \/ ph s = PClosed) -> timedout s = false -> in_spawn (cancel_pc s) = false ->
   intact (obj s u) = true -> processed (obj s u) = arrived (obj s u).
 Proof. exact drain. Qed.
 Print Assumptions C01_drain_partial.
 
-(* without the cancel_pc hypothesis the model (which lets a cancellation land inside scheduler.spawn()
+(* non-vacuity: cancelled while holding an event of another object *)
+Theorem C01_drain_example :
+  exists s, run (init None) tr_cancel_insert = Some s /\ ph s = PDepleted /\ timedout s = false /\
+    cancel_pc s = WInsert 1 1 /\ in_spawn (cancel_pc s) = false /\ intact (obj s 0) = true /\
+    processed (obj s 0) = [0] /\ arrived (obj s 0) = [0].
+Proof. exact drain_example. Qed.
+Print Assumptions C01_drain_example.
+
+(* without that hypothesis the model (which lets a cancellation land inside scheduler.spawn()
    before the job is queued — an over-approximation of the lock wait there) has an orphan stream *)
 Theorem C01_drain_refuted :
   exists lim tr s u, run (init lim) tr = Some s /\ ph s = PDepleted /\ timedout s = false /\
     intact (obj s u) = true /\ processed (obj s u) <> arrived (obj s u).
 Proof. exact drain_unconditional_refuted. Qed.
 Print Assumptions C01_drain_refuted.
+
+(* --- liveness.  Deadlock freedom: while an event of an intact object is unprocessed, some internal step
+       (spawn, start, take, finish, exit, idle retirement) is enabled --- *)
+Theorem C01_no_deadlock : forall lim tr s u, run (init lim) tr = Some s ->
+  ph s <> PClosed -> (ph s = PAlive \/ in_spawn (cancel_pc s) = false) -> limit_positive s = true ->
+  intact (obj s u) = true -> processed (obj s u) <> arrived (obj s u) ->
+  exists l s', progress_label s l = true /\ step s l = Some s'.
+Proof. exact no_deadlock. Qed.
+Print Assumptions C01_no_deadlock.
+
+Theorem C01_no_deadlock_example :
+  exists s, run (init (Some 1)) (firstn 9 tr_example) = Some s /\ ph s = PAlive /\ limit_positive s = true /\
+    intact (obj s 1) = true /\ processed (obj s 1) <> arrived (obj s 1) /\
+    progress_label s (LTimeout 0) = true /\ step s (LTimeout 0) <> None /\ step s (LStart 1) = None.
+Proof. exact no_deadlock_example. Qed.
+Print Assumptions C01_no_deadlock_example.
+
+(* every internal step strictly decreases the variant work_left (so there is no infinite internal activity) *)
+Theorem C01_progress_decreases : forall lim tr s l s', run (init lim) tr = Some s ->
+  progress_label s l = true -> step s l = Some s' -> work_left s' < work_left s.
+Proof. exact progress_decreases_reach. Qed.
+Print Assumptions C01_progress_decreases.
+
+(* for EVERY scheduler: at most work_left s internal steps, and when none is possible any more every intact
+   object has all its arrived events processed *)
+Theorem C01_eventually_processed : forall lim tr0 s tr s', run (init lim) tr0 = Some s ->
+  ph s <> PClosed -> (ph s = PAlive \/ in_spawn (cancel_pc s) = false) -> limit_positive s = true ->
+  progress_run s tr = Some s' ->
+  List.length tr <= work_left s /\
+  ((forall l, progress_label s' l = true -> step s' l = None) ->
+   forall u, intact (obj s' u) = true -> processed (obj s' u) = arrived (obj s' u)).
+Proof. exact eventually_processed. Qed.
+Print Assumptions C01_eventually_processed.
+
+Theorem C01_eventually_processed_example :
+  exists s s', run (init (Some 1)) (firstn 10 tr_example) = Some s /\ progress_run s tr_rest = Some s' /\
+    ph s = PAlive /\ limit_positive s = true /\ work_left s = 11 /\ work_left s' = 0 /\
+    processed (obj s' 0) = [0; 2] /\ arrived (obj s' 0) = [0; 2] /\ processed (obj s' 1) = [1] /\
+    quiet s' [0; 1] true = true.
+Proof. exact eventually_processed_example. Qed.
+Print Assumptions C01_eventually_processed_example.
+
+Theorem C01_quiescent_example :
+  exists s, run (init (Some 1)) (firstn 15 tr_example) = Some s /\ ph s = PAlive /\ intact (obj s 0) = true /\
+    (forall e p, step s (LGet 0 e p) = None) /\ (forall e, step s (LEnd 0 e) = None) /\
+    npend (obj s 0) = 0 /\ unsp s 0 = 0 /\ arrived (obj s 0) = [0; 2].
+Proof. exact quiescent_example. Qed.
+Print Assumptions C01_quiescent_example.
 
 (* --- a processor is told (stream_pressure) whenever events of its object are waiting --- *)
 Theorem C01_pressure : forall lim tr s u, run (init lim) tr = Some s ->
